@@ -14,7 +14,8 @@ int cf_spawn_count(void);
 }
 using namespace vt;
 namespace {
-const std::vector<std::string> kCtx = {"main", "color", "attributes", "menu", "item", "toolkit", "misc", "imageclasses", "image", "actions", "keyboard", "xim"};
+const std::vector<std::string> kCtx = {"main", "color", "attributes", "menu", "item", "toolkit", "misc", "imageclasses", "image", "actions", "keyboard", "xim",
+                                       "toolbar", "toolbar_icons", "buttons_left", "buttons_right", "imageclass", "attributes2", "keyboard_shortcuts", "Main"};   // pairs sharing long prefixes / differing in case
 const std::vector<std::string> kLookalike = {"beginning of it", "ending", "endx", "begin", "b", "e", "end-user", "ender 5", "be gin x", "en d"};
 const char *kMagic = "<vtapp-1.2.3>";
 
@@ -94,6 +95,7 @@ struct Interp {
                 switch (l.kind) {
                 case 2: {
                     int h = lookup(l.name);
+                    for (auto &r : reg) if (strcasecmp(r.c_str(), l.name.c_str()) && r.size() >= 7 && l.name.size() >= 7 && !strncasecmp(r.c_str(), l.name.c_str(), 7)) ctx.label("context-names-sharing-a-7-char-prefix");
                     unsigned long in = st.back().state, o = 0;
                     if (h >= 0) { o = ++counter; out.push_back({h, 1, in, o, ""}); }
                     st.push_back({h, o});
@@ -220,7 +222,7 @@ rc::Gen<Case> gen_case() {
             long f = *range(0, 9) < 6 ? 0 : *range(1, 3);
             if (k < 6) return mk("L", {f, 0, *range(0, 5), 0}, {std::string("a comment")});
             if (k < 10) return mk("L", {f, 1, *range(0, 5), *range(0, 4)});
-            if (k < 32) return mk("L", {f, 2, *range(0, 5), *range(0, 4)}, {*range(0, 7) == 0 ? std::string("nosuchctx") : *rc::gen::elementOf(kCtx)});
+            if (k < 32) return mk("L", {f, 2, *range(0, 5), *range(0, 4)}, {*range(0, 7) == 0 ? *rc::gen::elementOf(std::vector<std::string>{"nosuchctx", "toolbar_iconsX", "buttons_lefty", "attributes3", "mai", "mainx"}) : *rc::gen::elementOf(kCtx)});
             if (k < 52) return mk("L", {f, 3, *range(0, 5), *range(0, 5)});
             if (k < 60) return mk("L", {f, 4, *range(0, 4), *range(0, 5)});
             if (k < 88) { std::string t = *range(0, 3) == 0 ? *rc::gen::elementOf(kLookalike) : *text_over("abcxyz 019._-=,:/", 24); return mk("L", {f, 5, *range(0, 5), *range(0, 4)}, {t}); }
